@@ -23,7 +23,7 @@ def race(test, batches=4, timeout=1200, **kw):
 PROPS = {
     "C01": dict(
         level="exploration",
-        rule="messages drawn from a PRNG keyed by (seed, case index) over 10 dictionary contexts (library default set, each embedded dictionary on top of base, a generated dictionary with all 18 type names): header with any flag byte / boundary ids, AVP trees to depth 6 with defined, vendor-specific and undefined codes; each case is built through NewMessage/NewAVP/AddAVP/InsertAVP (or with its groups assembled top-down: nested groups attached while still empty, the outer AVP sized in between, then filled), serialised, read back, compared (header, ordered tree, typed values) and serialised again, and its reference-encoded image is read and re-serialised. Further suites: chains of groups nested 7..120 deep, one AVP of 65 507 .. 1 MiB bytes (around the 64 KiB steps of the body reader), and the known-risk Address classes (wire direction). distinct_nontrivial counts distinct (dictionary, data type, payload length mod 4, nesting depth, V flag) classes of AVPs seen in the generated trees.",
+        rule="messages drawn from a PRNG keyed by (seed, case index) over 10 dictionary contexts (library default set, each embedded dictionary on top of base, a generated dictionary with all 18 type names): header with any flag byte / boundary ids, AVP trees to depth 6 with defined, vendor-specific and undefined codes; each case is built through NewMessage/NewAVP/AddAVP/InsertAVP (or with its groups assembled top-down: nested groups attached while still empty, the outer AVP sized in between, then filled), serialised, read back, compared (header, ordered tree, typed values) and serialised again, and its reference-encoded image is read and re-serialised. Further suites: chains of groups nested 7..120 deep, one AVP of 65 507 .. 1 MiB bytes (around the 64 KiB steps of the body reader), the known-risk Address classes (wire direction), and one message object emitted by 2..6 goroutines at once through Serialize / SerializeTo / WriteTo / WriteToWithRetry (every emission compared with the reference image; race build: any write to the shared message is a reported race). distinct_nontrivial counts distinct (dictionary, data type, payload length mod 4, nesting depth, V flag) classes of AVPs seen in the generated trees.",
         runs=dict(
             quick=[plain("TestC01", 8), race("TestC01", 2)],
             thorough=[plain("TestC01", 16, 3000), race("TestC01", 8, 3000)],
@@ -34,10 +34,10 @@ PROPS = {
     ),
     "C02": dict(
         level="exploration",
-        rule="same generated messages as C01: the library's Serialize() is compared byte for byte with refcodec.EncodeMessage, and the typed values the library reads from the reference image with the abstract values; plus random NewAVP/AddAVP/InsertAVP/Marshal operation sequences with the length bookkeeping checked after every step, and exhaustive sweeps of the 24-bit length/command conversions, the pad-to-4 function and (thorough) every 32-bit payload of the six 4-byte types. distinct_nontrivial counts distinct (dictionary, data type, payload length mod 4, depth, V) classes plus one class per sweep and per operation kind.",
+        rule="same generated messages as C01: the library's Serialize() is compared byte for byte with refcodec.EncodeMessage, and the typed values the library reads from the reference image with the abstract values; plus random NewAVP/AddAVP/InsertAVP/Marshal operation sequences with the length bookkeeping checked after every step, the assembled message then emitted with WriteToWithRetry to a transport that interrupts 0..3 attempts after accepting part of the bytes (what arrived must be the reference image), one message object emitted by several goroutines at once (as in C01), and exhaustive sweeps of the 24-bit length/command conversions, the pad-to-4 function and (thorough) every 32-bit payload of the six 4-byte types. distinct_nontrivial counts distinct (dictionary, data type, payload length mod 4, depth, V) classes plus one class per sweep and per operation kind.",
         runs=dict(
-            quick=[plain("TestC02", 8), plain("TestC02Sweeps", 8)],
-            thorough=[plain("TestC02", 16, 3000), plain("TestC02Sweeps", 16, 3000)],
+            quick=[plain("TestC02", 8), plain("TestC02Sweeps", 8), race("TestC02", 2)],
+            thorough=[plain("TestC02", 16, 3000), plain("TestC02Sweeps", 16, 3000), race("TestC02", 8, 3000)],
         ),
         floor=dict(quick=30000, thorough=1000000),
         need_events=["api_built", "ref_decode_ok"],
